@@ -417,7 +417,7 @@ func payloadForC(id string, size int, chars string) []byte {
 		return b
 	}
 	for i := 0; len(b) < size; i++ {
-		b = append(b, alpha[(i*5+len(id))%len(alpha)]...)
+		b = append(b, alpha[(i*7+len(id))%len(alpha)]...)
 	}
 	return b
 }
